@@ -26,6 +26,13 @@ CHECKS = {
                 stages=[rapid("TestC39", 20000, 400000), plain("TestC39Exhaustive")]),
 }
 
+# per-package fragments: registry.d/<pkg>.py define CHECKS_<anything> dicts via the helpers above
+import glob as _glob, os as _os
+for _f in sorted(_glob.glob(_os.path.join(_os.path.dirname(_os.path.abspath(__file__)), "registry.d", "*.py"))):
+    _ns = dict(rapid=rapid, plain=plain, fuzz=fuzz)
+    exec(compile(open(_f).read(), _f, "exec"), _ns)
+    CHECKS.update(_ns.get("CHECKS", {}))
+
 # commits in /repo that add verif-tagged hooks (MANIFEST.hooks.source_commits)
 HOOK_COMMITS = []
 
